@@ -5,6 +5,7 @@ use xot::{Node, Xot};
 
 pub fn register(v: &mut Vec<(&'static str, crate::Harness)>) {
     v.push(("h_c18_strip", h_c18_strip));
+    v.push(("h_c18_adjacent", h_c18_adjacent));
     v.push(("h_c12_clone", h_c12_clone));
     v.push(("h_c12_xot_clone", h_c12_xot_clone));
     v.push(("h_c12_clone_with_prefixes", h_c12_clone_with_prefixes));
@@ -486,4 +487,41 @@ pub fn h_c12_xot_clone() {
         mutate(&mut copy, victim, mop);
         sym::check("original-untouched-by-mutation-of-xot-clone", snapshot(&w.xot, &all) == before);
     }
+}
+
+/// adjacent text nodes (text consolidation switched off while the tree is built): a
+/// whitespace node directly next to a text node with other content is significant
+pub fn h_c18_adjacent() {
+    let mut xot = Xot::new();
+    xot.set_text_consolidation(false);
+    let (na, nb) = (xot.add_name("a"), xot.add_name("b"));
+    let root = xot.new_element(na);
+    let doc = xot.new_document_with_element(root).unwrap();
+    let pick = |nm: &'static str| -> String { [" ", "x"][sym::choose(nm, 2)].to_string() };
+    // root: s0 s1 <b/> s2 s3   (s0,s1 adjacent; s2,s3 adjacent)
+    let texts: Vec<String> = vec![pick("s0"), one("s1"), pick("s2"), pick("s3")];
+    let t: Vec<Node> = texts.iter().map(|s| xot.new_text(s)).collect();
+    xot.append(root, t[0]).unwrap();
+    xot.append(root, t[1]).unwrap();
+    let b = xot.new_element(nb);
+    xot.append(root, b).unwrap();
+    xot.append(root, t[2]).unwrap();
+    xot.append(root, t[3]).unwrap();
+    if sym::choose("back_on", 2) == 1 {
+        xot.set_text_consolidation(true);
+    }
+    let ws: Vec<bool> = texts.iter().map(|s| s.chars().all(is_xml_ws)).collect();
+    let all_ws = ws.iter().all(|w| *w);
+    xot.remove_insignificant_whitespace(doc);
+    for k in 0..4 {
+        // a whitespace-only node goes exactly when no sibling text node has other content
+        sym::check("removed-exactly-the-insignificant-whitespace", xot.is_removed(t[k]) == (ws[k] && all_ws));
+        if !all_ws {
+            sym::check("kept-text-untouched", !xot.is_removed(t[k]) && xot.text_str(t[k]) == Some(texts[k].as_str()));
+        }
+    }
+    sym::check("other-nodes-untouched", !xot.is_removed(b) && xot.parent(b) == Some(root));
+    let before = full(&xot, doc);
+    xot.remove_insignificant_whitespace(doc);
+    sym::check("second-application-changes-nothing", full(&xot, doc) == before);
 }
